@@ -283,7 +283,7 @@ class World:
         self.vocabs = [mk(d), mk(d), mk(self.d2)]
         for n, v in zip(NAMES, self.names):
             self.vocabs[0].add(n, np.array(v, float))
-        for n, v in zip(NAMES, self.names1):
+        for n, v in reversed(list(zip(NAMES, self.names1))):     # same keys as vocabs[0], held in another order
             self.vocabs[1].add(n, np.array(v, float))
         for n, v in zip(NAMES[:2], self.names2):
             self.vocabs[2].add(n, np.array(v, float))
@@ -300,7 +300,11 @@ class World:
         for (a, b_) in ((1, 0), (0, 2), (0, 1)):
             with warnings.catch_warnings():
                 warnings.simplefilter("ignore")
-                self.T[(a, b_)] = np.asarray(self.vocabs[a].transform_to(self.vocabs[b_], populate=False))
+                self.vocabs[a].transform_to(self.vocabs[b_], populate=False)
+            # sum over the common keys of (target vector)(source vector)^T, computed here and not taken from transform_to
+            vv = {0: self.names, 1: self.names1, 2: self.names2}
+            ncommon = min(len(vv[a]), len(vv[b_]))
+            self.T[(a, b_)] = sum(np.outer(np.array(vv[b_][k_], float), np.array(vv[a][k_], float)) for k_ in range(ncommon))
         # restricted to the key A: the outer product of the two A vectors (independent of transform_to's own handling of keys)
         self.T[(0, 2, "A")] = np.outer(np.array(self.names2[0], float), np.array(self.names[0], float))
 
@@ -846,6 +850,7 @@ def run(rep, tier, rng):
         for what, data in viols:
             rep.violation(what, data)
 
+    number_valued_sources(rep)
     verdicts = c.coq_eval("C01", "cases", IMPORTS, exprs, shard=120)
     skipped = 0
     WHAT = {"sink-value-vs-semantic-pointer-arithmetic": "the sink received a value different from Semantic-Pointer arithmetic on the source values",
@@ -867,6 +872,47 @@ def run(rep, tier, rng):
                        "expected": "Model/Parse.v eval (specification) / Model/Dynamic.v delivered"},
                       found_input=not (m["op"].startswith("model-") or m["op"] == "ast-structure-vs-build"))
     rep.count("spec-unrepresentable-skipped", skipped)
+
+
+def number_valued_sources(rep):
+    """A number-valued expression string as a Transcode source is that number times the identity of the vocabulary's OWN
+    algebra (dyadic at these sizes: HRR e_0; VTB / TVTB at d = 16: eye(4) / 2 flattened)."""
+    import nengo
+    import nengo_spa as spa
+    for al, d in (("AHrr", 4), ("AVtb", 16), ("ATvtb", 16)):
+        ident = np.eye(d)[0] if al == "AHrr" else (np.eye(4) / 2.0).flatten()
+        for form, mk, cst in (("spa.Transcode('0.5', output_vocab=v)", lambda v: spa.Transcode("0.5", output_vocab=v), 0.5),
+                              ("spa.Transcode(lambda t: '2 - 1', output_vocab=v)", lambda v: spa.Transcode(lambda t: "2 - 1", output_vocab=v), 1.0),
+                              ("spa.Transcode(lambda t: '0.25 * 2', output_vocab=v)", lambda v: spa.Transcode(lambda t: "0.25 * 2", output_vocab=v), 0.5)):
+            rep.case(("number-valued-source", al, form))
+            rep.count("number-valued-source")
+            py = "import nengo, nengo_spa as spa\n"
+            py += (f"{algs.PRELUDE}v = spa.Vocabulary({d}, algebra={algs.alg_py(al)})\n"
+                   "with spa.Network() as net:\n    net.config[nengo.Ensemble].neuron_type = nengo.Direct()\n"
+                   f"    src = {form}; sink = spa.Transcode(input_vocab=v, output_vocab=v); src >> sink\n"
+                   "    p = nengo.Probe(sink.output, synapse=None)\n"
+                   "for conn in net.all_connections: conn.synapse = None\n"
+                   "with nengo.Simulator(net, progress_bar=False) as sim: sim.run_steps(5)\n"
+                   f"assert np.allclose(sim.data[p][-1], {cst} * np.array({ident.tolist()})), sim.data[p][-1]\n")
+            try:
+                v = spa.Vocabulary(d, algebra=algs.alg_obj(al), pointer_gen=np.random.RandomState(1))
+                with spa.Network() as net:
+                    net.config[nengo.Ensemble].neuron_type = nengo.Direct()
+                    src = mk(v)
+                    sink = spa.Transcode(input_vocab=v, output_vocab=v)
+                    src >> sink
+                    pr = nengo.Probe(sink.output, synapse=None)
+                for conn in net.all_connections:
+                    conn.synapse = None
+                with nengo.Simulator(net, progress_bar=False) as sim:
+                    sim.run_steps(5)
+                got = np.asarray(sim.data[pr][-1], dtype=float)
+            except Exception as e:  # noqa
+                rep.violation(f"{al} d={d}: {form} >> sink raised {type(e).__name__}: {str(e)[:100]}", {"case": {"alg": al, "d": d, "source": form}, "python": py})
+                continue
+            if got.shape != ident.shape or np.max(np.abs(got - cst * ident)) > 1e-9:
+                rep.violation(f"{al} d={d}: {form} >> sink delivers {np.round(got, 4).tolist()}, not {cst} times the identity of the vocabulary's algebra",
+                              {"case": {"alg": al, "d": d, "source": form}, "observed": got.tolist(), "expected": (cst * ident).tolist(), "python": py})
 
 
 def _uses(e, what):
